@@ -65,17 +65,20 @@ type Obligation struct {
 
 type Region struct {
 	Blk, Off *Term
-	N        *Term // number of cells (BV64)
-	Const    int   // >0 when N is a constant
-	Sorts    []*Sort
-	ElemSz   int // for slice regions: cells per element
+	N        *Term // memory span (BV64)
+	Const    int   // >0 when N is a constant: the span
+	Sorts    []*Sort // cell sorts of the element / pointee type
+	Offs     []int   // memory offsets of those cells
+	Tags     []int   // sub-block of those cells
+	MaxTag   int
+	ElemSz   int     // for slice regions: stride per element
 	ElemT    types.Type
 }
 
 const (
-	localBlkLimit  = 0x8000
-	globalBlkBase  = 0x8000
-	paramBlkBase   = 0x10000
+	localBlkLimit  = 0x80000  // root blocks are multiples of 16: locals and spec temporaries below this
+	globalBlkBase  = 0x8000   // (n << 4)
+	paramBlkBase   = 0x100000
 )
 
 type Exec struct {
@@ -84,6 +87,7 @@ type Exec struct {
 	assumed  map[*Term]bool
 	Obls     []*Obligation
 	nextBlk  int
+	nextTmp  int
 	spec     int
 	Top      *FuncInfo
 	TopKey   string
@@ -111,6 +115,9 @@ type Exec struct {
 	lawMode  bool
 	curLoop  *loopData
 	splits   []*Term
+	caseMask int
+	nSplits  int
+	caseTag  string
 	calls    []*callRec
 	callSeq  int
 	usedContracts map[string]bool
@@ -176,6 +183,11 @@ func (x *Exec) oblige(kind, site string, tags []string, pos token.Pos, st *State
 	base := prefix + site
 	x.counters[base]++
 	name := fmt.Sprintf("%s/%s#%d", x.TopKey, base, x.counters[base])
+	if x.nSplits > 0 {
+		name += x.caseTag
+	} else if x.caseMask != 0 {
+		return // obligations before the first split are taken from case 0 only
+	}
 	o := &Obligation{Name: name, Kind: kind, Func: x.TopKey, Tags: tags, Guard: st.G, Goal: goal, NAssume: len(x.Assumes), Note: note, Expect: "unsat", ex: x,
 		Splits: append([]*Term{}, x.splits...)}
 	if pos.IsValid() {
@@ -245,12 +257,14 @@ func (x *Exec) load(st *State, ptr []*Term, t types.Type, pos token.Pos) []*Term
 		x.oblige("nil", "nil", []string{"C04"}, pos, st, Neq(blk, BV(0, 32)), "nil pointer dereference")
 	}
 	out := make([]*Term, len(ss))
+	mo := memOffsOf(t)
+	mt := memTagsOf(t)
 	for i, s := range ss {
 		h := x.heapOf(st, s)
-		out[i] = Select(Select(h, blk), BVAdd(off, BV(int64(i), 64)))
+		out[i] = Select(Select(h, BVAdd(blk, BV(int64(mt[i]), 32))), BVAdd(off, BV(int64(mo[i]), 64)))
 	}
 	x.typeInv(st, t, out)
-	return out
+	return x.normPtrs(st, t, out)
 }
 
 func (x *Exec) storeHeapCell(st *State, blk, off, v *Term) {
@@ -276,9 +290,11 @@ func (x *Exec) store(st *State, ptr []*Term, t types.Type, v []*Term, pos token.
 	if x.nonil == 0 {
 		x.oblige("nil", "nil", []string{"C04"}, pos, st, Neq(blk, BV(0, 32)), "nil pointer dereference")
 	}
-	x.frameCheck(st, blk, off, len(ss), pos)
+	x.frameCheck(st, blk, off, spanOf(t), pos)
+	mo := memOffsOf(t)
+	mt := memTagsOf(t)
 	for i := range ss {
-		x.storeHeapCell(st, blk, BVAdd(off, BV(int64(i), 64)), v[i])
+		x.storeHeapCell(st, BVAdd(blk, BV(int64(mt[i]), 32)), BVAdd(off, BV(int64(mo[i]), 64)), v[i])
 	}
 }
 
@@ -288,7 +304,11 @@ func (x *Exec) inRegions(blk, off *Term, n int) *Term {
 	for _, r := range x.regions {
 		last := BVAdd(off, BV(int64(n-1), 64))
 		end := BVAdd(r.Off, r.N)
-		alts = append(alts, And(Eq(blk, r.Blk), ULE(r.Off, off), ULT(off, end), ULE(r.Off, last), ULT(last, end)))
+		var bs []*Term
+		for t := 0; t <= r.MaxTag; t++ {
+			bs = append(bs, Eq(blk, BVAdd(r.Blk, BV(int64(t), 32))))
+		}
+		alts = append(alts, And(Or(bs...), ULE(r.Off, off), ULT(off, end), ULE(r.Off, last), ULT(last, end)))
 	}
 	return Or(alts...)
 }
@@ -313,7 +333,8 @@ func (x *Exec) typeInv(st *State, t types.Type, c []*Term) {
 			if ln.Op == "const" && cp.Op == "const" {
 				return
 			}
-			x.assume(st.G, And(SLE(BV(0, 64), ln), SLE(ln, cp), SLE(cp, BV(1<<32, 64)), ULE(c[off+1], BV(1<<40, 64))))
+			x.assume(st.G, And(SLE(BV(0, 64), ln), SLE(ln, cp), SLE(cp, BV(1<<32, 64)), ULE(c[off+1], BV(1<<40, 64)),
+				Implies(Eq(c[off], BV(0, 32)), Eq(cp, BV(0, 64)))))
 		case *types.Basic:
 			if isString(t) {
 				ln := c[off+2]
@@ -373,12 +394,99 @@ func hasSlice(t types.Type) bool {
 	return r
 }
 
+// addIdx: off + idx*stride with stride a power of two, written as concat(high(off)+idx, low(off)) so
+// that the solvers see the element index and the field offset as separate bit ranges.
+func addIdx(off, idx *Term, stride int) *Term {
+	s := log2(stride)
+	if s == 0 {
+		return BVAdd(off, idx)
+	}
+	hi := BVAdd(Extract(63, s, off), Extract(63-s, 0, idx))
+	return Concat(hi, Extract(s-1, 0, off))
+}
+
+// alignedOff: the canonical form of an offset known to be a multiple of al
+func alignedOff(off *Term, al int) *Term {
+	s := log2(al)
+	if s == 0 {
+		return off
+	}
+	return Concat(Extract(63, s, off), BV(0, s))
+}
+
+// normPtrs rewrites the offsets of pointers and slices inside a value into aligned canonical form
+// (and assumes the alignment, which holds by construction of the memory layout).
+func (x *Exec) normPtrs(st *State, t types.Type, c []*Term) []*Term {
+	if !hasSlice(t) {
+		return c
+	}
+	out := c
+	cow := func() {
+		if &out[0] == &c[0] {
+			out = append([]*Term{}, c...)
+		}
+	}
+	var rec func(t types.Type, off int)
+	rec = func(t types.Type, off int) {
+		switch u := t.Underlying().(type) {
+		case *types.Slice:
+			al := strideOf(u.Elem())
+			if al > 1 {
+				n := alignedOff(c[off+1], al)
+				if n != c[off+1] {
+					x.assume(st.G, Eq(c[off+1], n))
+					cow()
+					out[off+1] = n
+				}
+			}
+		case *types.Pointer:
+			al := alignOf(u.Elem())
+			if al > 1 {
+				n := alignedOff(c[off+1], al)
+				if n != c[off+1] {
+					x.assume(st.G, Eq(c[off+1], n))
+					cow()
+					out[off+1] = n
+				}
+			}
+		case *types.Struct:
+			o := off
+			for i := 0; i < u.NumFields(); i++ {
+				ft := u.Field(i).Type()
+				if hasSlice(ft) {
+					rec(ft, o)
+				}
+				o += sizeOf(ft)
+			}
+		case *types.Array:
+			if hasSlice(u.Elem()) {
+				es := sizeOf(u.Elem())
+				for i := 0; i < int(u.Len()); i++ {
+					rec(u.Elem(), off+i*es)
+				}
+			}
+		}
+	}
+	if x.quant == 0 {
+		rec(t, 0)
+	}
+	return out
+}
+
 func (x *Exec) newBlk() int {
+	if x.spec > 0 {
+		x.nextTmp++
+		if x.nextTmp >= 0x3fff {
+			// wrap: temporaries of finished spec evaluations are dead
+			x.nextTmp = 1
+		}
+		return (0x4000 + x.nextTmp) << 4
+	}
 	x.nextBlk++
-	if x.nextBlk >= localBlkLimit {
+	if x.nextBlk >= 0x4000 {
 		x.fail("too many local blocks")
 	}
-	return x.nextBlk
+	return x.nextBlk << 4
 }
 
 // constant byte data (string literals) live in read-only local-range blocks of the SMT heap
@@ -838,7 +946,7 @@ func (x *Exec) globalBlk(g *ssa.Global) int {
 	if id, ok := x.globals[g]; ok {
 		return id
 	}
-	id := globalBlkBase + len(x.globals) + 1
+	id := (globalBlkBase + len(x.globals) + 1) << 4
 	x.globals[g] = id
 	return id
 }
@@ -862,8 +970,10 @@ func (x *Exec) instr(fr *Frame, st *State, instr ssa.Instruction) {
 			st.Loc[id] = zeroCells(t)
 		} else {
 			z := zeroCells(t)
+			mo := memOffsOf(t)
+			mt := memTagsOf(t)
 			for k, c := range z {
-				x.storeHeapCell(st, BV(int64(id), 32), BV(int64(k), 64), c)
+				x.storeHeapCell(st, BV(int64(id+mt[k]), 32), BV(int64(mo[k]), 64), c)
 			}
 		}
 		fr.vals[i] = Val{C: []*Term{BV(int64(id), 32), BV(0, 64)}}
@@ -926,7 +1036,11 @@ func (x *Exec) instr(fr *Frame, st *State, instr ssa.Instruction) {
 		p := x.value(fr, st, i.X)
 		stt := i.X.Type().Underlying().(*types.Pointer).Elem().Underlying().(*types.Struct)
 		x.obligeNonNil(st, p.C[0], i.Pos())
-		fr.vals[i] = Val{C: []*Term{p.C[0], BVAdd(p.C[1], BV(int64(fieldOffset(stt, i.Field)), 64))}}
+		fblk := p.C[0]
+		if _, isArr := stt.Field(i.Field).Type().Underlying().(*types.Array); isArr {
+			fblk = BVAdd(fblk, BV(1, 32))
+		}
+		fr.vals[i] = Val{C: []*Term{fblk, BVAdd(p.C[1], BV(int64(fieldMemOffset(stt, i.Field)), 64))}}
 	case *ssa.Field:
 		sv := x.value(fr, st, i.X)
 		stt := i.X.Type().Underlying().(*types.Struct)
@@ -953,8 +1067,8 @@ func (x *Exec) instr(fr *Frame, st *State, instr ssa.Instruction) {
 			x.fail("IndexAddr on %v", i.X.Type())
 		}
 		x.oblige("index", "index", []string{"C04"}, i.Pos(), st, ULT(idx64, ln), "index out of range")
-		es := sizeOf(elem)
-		fr.vals[i] = Val{C: []*Term{blk, BVAdd(off, BVMul(idx64, BV(int64(es), 64)))}}
+		es := strideOf(elem)
+		fr.vals[i] = Val{C: []*Term{blk, addIdx(off, idx64, es)}}
 	case *ssa.Index:
 		xv := x.value(fr, st, i.X)
 		idx := x.value(fr, st, i.Index).C[0]
@@ -1062,13 +1176,13 @@ func (x *Exec) sliceInstr(fr *Frame, st *State, i *ssa.Slice) {
 	switch u := i.X.Type().Underlying().(type) {
 	case *types.Slice:
 		blk, off, ln, cp = xv.C[0], xv.C[1], xv.C[2], xv.C[3]
-		es = sizeOf(u.Elem())
+		es = strideOf(u.Elem())
 	case *types.Pointer:
 		arr := u.Elem().Underlying().(*types.Array)
 		blk, off = xv.C[0], xv.C[1]
 		ln = BV(arr.Len(), 64)
 		cp = ln
-		es = sizeOf(arr.Elem())
+		es = strideOf(arr.Elem())
 		x.obligeNonNil(st, blk, i.Pos())
 	case *types.Basic:
 		blk, off, ln = xv.C[0], xv.C[1], xv.C[2]
@@ -1092,7 +1206,7 @@ func (x *Exec) sliceInstr(fr *Frame, st *State, i *ssa.Slice) {
 	}
 	// 0 <= lo <= hi <= max <= cap  (unsigned compares cover negatives)
 	x.oblige("slice", "slice", []string{"C04"}, i.Pos(), st, And(ULE(lo, hi), ULE(hi, mx), ULE(mx, cp)), "slice bounds out of range")
-	noff := BVAdd(off, BVMul(lo, BV(int64(es), 64)))
+	noff := addIdx(off, lo, es)
 	if isStr {
 		fr.vals[i] = Val{C: []*Term{blk, noff, BVSub(hi, lo)}}
 	} else {
